@@ -89,16 +89,17 @@ type c16CSVRow struct {
 }
 
 type c16CSVTable struct {
-	hdr     []string
-	colHdr  [][]string // [level][column]
-	ncols   int
-	unit    string
-	rows    []c16CSVRow
-	sumLbl  string
-	sumCtr  []string // per column, "" if none
-	sumRat  []string // per column, "" if none
-	sumRec  int
-	sumSeen bool
+	hdr      []string
+	colHdr   [][]string // [level][column]
+	ncols    int
+	unit     string
+	rows     []c16CSVRow
+	sumLbl   string
+	sumCtr   []string // per column, "" if none
+	sumRat   []string // per column, "" if none
+	sumStray string   // non-empty: a summary-row value at a position that is neither centre nor delta
+	sumRec   int
+	sumSeen  bool
 }
 
 func c16SC(e int) int {
@@ -268,7 +269,11 @@ func c16ParseCSV(out string) ([]*c16CSVTable, error) {
 		}
 		for j, f := range rec {
 			if !used[j] && f != "" {
-				return c16Unp("csv-summary-row")
+				// A value under the "CI" or "P" header of the summary row:
+				// the text rendering never shows anything there, so the two
+				// renderings disagree about what this value is (seeded change
+				// C16 seed2 put the geomean delta under "CI").
+				t.sumStray = fmt.Sprintf("csv summary row has %q in field %d, which is neither a centre nor a 'vs base' position", f, j)
 			}
 		}
 		tables = append(tables, t)
@@ -771,6 +776,9 @@ func c16CompareTable(ti int, lines []string, t *c16CSVTable, warns map[int][]c16
 		bt, f := bandToks(line, "summary row")
 		if f != nil {
 			return f, nil
+		}
+		if t.sumStray != "" {
+			return kit.Failf("bs-summary-misplaced", "table %d: %s; text summary row: %q%s", ti, t.sumStray, string(line), ctx()), nil
 		}
 		var tw []c16TextCellWarn
 		for e := 0; e < t.ncols; e++ {
